@@ -80,7 +80,21 @@ def check_case(acc, src, mode, origin):
         if _f08a_trigger(src):
             acc.finding("F08a", src[:80])
             return
+        if _f02b_trigger(src, mode, val):
+            acc.finding("F02b", src[:80])
+            return
         acc.violation("accepted-what-cpython-rejects", case, {"cpython": f"{val.msg} ({val.lineno}:{val.offset})"})
+
+
+_ZERO_OR = re.compile(r"(?<![\w.])0or\b")
+
+
+def _f02b_trigger(src, mode, val):
+    """F02b: CPython reads `0or` as the start of an octal literal (`0o`) and rejects it; here it is NUMBER 0 + keyword `or`.
+    Attribution: that message, that spelling, and the counterfactual - with a blank between `0` and `or` CPython accepts the text"""
+    if "invalid octal literal" not in str(val.msg) or not _ZERO_OR.search(src):
+        return False
+    return base.cpython(_ZERO_OR.sub("0 or", src), mode)[0] == "tree"
 
 
 def _f08a_trigger(src):
@@ -194,6 +208,32 @@ FENCE_FAMILIES += [
 FENCE_FAMILIES = [s for s in FENCE_FAMILIES if s]
 
 
+INDENT_UNITS = [" ", "  ", "    ", "        ", "\t", "\t\t", " \t", "\t ", "    \t", "\t    ", "  \t  ", "\f ", " \f", "\t\f\t", "         "]
+BLOCKS = ["if a:\n{0}b\n{1}c\n", "if a:\n{0}b\n{1}c\nd\n", "if a:\n{0}if b:\n{0}{1}c\n{1}{0}d\n", "def f():\n{0}x = 1\n\n{1}return x\n", "for i in y:\n{0}if i:\n{1}{0}j\n{0}k\n{1}l\n",
+          "while a:\n{0}b\n# c\n{1}d\n", "if a:\n{0}b\nelse:\n{1}c\n{1}d\n", "try:\n{0}a\nexcept E:\n{1}b\n{0}c\n", "class A:\n{0}x = (1,\n{1}2)\n{1}y = 3\n"]
+GLUE_KEYWORDS = ["and", "or", "if", "else", "in", "is", "not", "for", "import", "as", "lambda", "while", "None", "e", "E", "j", "x", "o", "b", "_", "l", "rb", "abc"]
+CONT_BRACKETS = [("(", ")"), ("[", "]"), ("{", "}"), ('f"{', '}"'), ("f'''{", "}'''"), ('f"{a:{', '}}"'), ("'", "'"), ("f'", "'"), ('"""', '"""'), ("", "")]
+
+
+def layout_cases():
+    """three families outside the token-sequence enumeration: (1) indentation written with every pair of units (tabs, spaces, form feeds) -
+    a level that compares differently under another tab width is a TabError; (2) a backslash continuation in every bracket-like context
+    followed by an indented line; (3) every number spelling glued to a keyword or letter run"""
+    for blk in BLOCKS:
+        for u0 in INDENT_UNITS:
+            for u1 in INDENT_UNITS:
+                yield blk.format(u0, u1)
+    for opener, closer in CONT_BRACKETS:
+        for inner in ("a \\\n", "a \\\n ", "\\\n", "a, \\\n b", "a \\\n\\\n"):
+            for tail in ("    z = 1\n", "  z\n", "\tz\n", "z = 1\n    w\n", "if z:\n    w\n  v\n"):
+                yield f"y = {opener}{inner}{closer}\n{tail}"
+                yield f"if b:\n    y = {opener}{inner}{closer}\n{tail}"
+    for n in gen_py.NUMBERS[:400]:
+        for k in GLUE_KEYWORDS:
+            yield f"x = {n}{k} 2\n"
+            yield f"x = [1 if {n}{k} 0 else 3]\n"
+
+
 def run_shard(shard):
     acc = Acc()
     if "replay" in shard:
@@ -229,6 +269,9 @@ def run_shard(shard):
             for g in (")", "]", "a", "1", "=", "= 1", ":", ";", "; b", "\nb", "else", "for", "\n)", ":= 1", "pass"):
                 check_case(acc, e + " " + g, "eval", "trailing-eval")
             check_case(acc, e + "\n" + e, "eval", "trailing-eval")
+    elif kind == "layout":
+        for s in layout_cases():
+            check_case(acc, s, "exec", "layout")
     elif kind == "corpus":
         stmts = []
         for path in shard["files"]:
@@ -245,7 +288,7 @@ def run_shard(shard):
 def plan(tier, seed):
     rnd = random.Random(seed)
     q = tier == "quick"
-    shards = [{"kind": "fence", "seed": seed, "k": 6 if q else 40}]
+    shards = [{"kind": "fence", "seed": seed, "k": 6 if q else 40}, {"kind": "layout", "seed": seed}]
     nv = len(VOCAB)
     for L in (1, 2, 3):
         step = 4 if L == 3 else nv
